@@ -376,6 +376,26 @@ func (rw *rewriter) file(p *packages.Package, name string, f *ast.File) {
 				}
 			}
 		case *ast.CallExpr:
+			// fmt.Sprintf / fmt.Errorf with a %p verb: addresses in text go through the simulator
+			if sel, ok := n.Fun.(*ast.SelectorExpr); ok && len(n.Args) >= 1 {
+				if fo, ok := info.Uses[sel.Sel].(*types.Func); ok && fo.Pkg() != nil && fo.Pkg().Path() == "fmt" {
+					hasP := false
+					if tv, ok := info.Types[n.Args[0]]; ok && tv.Value != nil && strings.Contains(tv.Value.ExactString(), "%p") {
+						hasP = true
+					}
+					if fo.Name() != "Sprintf" && fo.Name() != "Errorf" && len(n.Args) >= 2 {
+						if tv, ok := info.Types[n.Args[1]]; ok && tv.Value != nil && strings.Contains(tv.Value.ExactString(), "%p") {
+							rw.unmodelled(n, "fmt."+fo.Name()+" with %p")
+						}
+					}
+					if hasP && (fo.Name() == "Sprintf" || fo.Name() == "Errorf") {
+						n.Fun = simrtSel(fo.Name())
+						used = true
+						rw.table.Seams["addr"]++
+						return true
+					}
+				}
+			}
 			if id, ok := n.Fun.(*ast.Ident); ok && id.Name == "close" && len(n.Args) == 1 {
 				if _, ok := info.Uses[id].(*types.Builtin); ok {
 					c.Replace(&ast.CallExpr{Fun: simrtSel("ChanClose"), Args: n.Args})
@@ -484,7 +504,7 @@ func (rw *rewriter) file(p *packages.Package, name string, f *ast.File) {
 			continue
 		}
 		switch path {
-		case "os", "sync", "time", "math/rand", "path/filepath", "io/ioutil":
+		case "os", "sync", "time", "math/rand", "path/filepath", "io/ioutil", "fmt":
 			if !astutil.UsesImport(f, path) {
 				if imp.Name != nil {
 					astutil.DeleteNamedImport(rw.fset, f, imp.Name.Name, path)
